@@ -7,7 +7,8 @@ stage 'elements'   every permutation of the solutes of each shipped ternary data
                    indices differ) x a lattice of (composition, temperature) inside the matrix + precipitate field x
                    {four driving-force methods, interfacial composition, curvature outputs, growth/interfacial
                    composition, interdiffusivity, tracer diffusivity, computeMobility}: the two objects must return the
-                   same numbers after the permutation has been applied (1e-8 rel: same equilibrium solved twice).
+                   same numbers after the permutation has been applied (1e-8 rel: same equilibrium solved twice; a driving
+                   force is measured against max(|DF|, R T) since it passes through zero at the solvus).
 stage 'diffusion'  SinglePhaseModel (Ni-Cr-Al, Al-Mg-Si; FCC_A1) and HomogenizationModel (Ni-Cr-Al; FCC_A1 + BCC_A2, the five
                    homogenization functions) on N = 5 nodes, solute order permuted: same time grid, same profiles after
                    permutation.
@@ -16,7 +17,9 @@ stage 'phases'     every permutation of 2 and 3 precipitate phases (2 + 6 orders
                    per phase (they travel with the phase: mc.precip.PHASE_PARAMS is keyed by phase name, the site list is
                    permuted with the phases, parent phases are set by name), both iterators, temperature programmes with isothermal and ramp segments,
                    with each step-size constraint switched on alone in turn (and all together): same time grid (1e-9 rel)
-                   and the same per-phase histories merely permuted (1e-7 rel over <= 300 steps).
+                   and the same per-phase histories merely permuted (1e-7 rel over <= 300 steps), on the steps on which the
+                   configuration is well conditioned (measured with ulp-perturbed twins of the reference order, see
+                   _conditioning_horizon and _temperature_rule_flipped).
 """
 import itertools
 
@@ -260,7 +263,7 @@ def run_phase_perm(case):
     populated = int(np.sum(np.max(d0.precipitateDensity[:H + 1], axis=0) > 0))
     oc = '%s/n=%d/only=%s/%s/bound=%s/pop=%d/%s' % (case['system'], n, case['only'], err0 or 'finished', 'yes' if bound else 'no', populated,
                                                     'identical' if maxerr == 0 and not suspicious else ('knife-edge' if knife else ('full' if H >= steps else 'cut')))
-    return {'viol': viol, 'states': (min(H, steps) + 1) * (nperm + 1), 'transitions': min(H, steps) * nperm, 'traces': nperm + (3 if suspicious else 1),
+    return {'viol': viol, 'states': (min(H, steps) + 1) * (nperm + 1), 'transitions': min(H, steps) * nperm, 'traces': nperm + (5 if suspicious else 1),
             'outcome': oc, 'nontrivial': bound > 0 and populated >= 2 and H >= 20,
             'info': {'steps': int(steps), 'compared_steps': int(min([H, steps] + cut_pairs)), 'bound_steps': bound, 'max_rel_err': maxerr,
                      'orders': nperm + 1, 'temperature_rule_knife_edges': knife, 'final_volFrac': [float(v) for v in d0.volFrac[-1]]}}
@@ -298,12 +301,14 @@ def run(ctx):
                        'per-phase parameters travel with the phase name; parent-phase relation set by name',
                        'every query starts from clearCache() and uses removeCache=True: dependence on evaluation history is C09, not C11',
                        'only the solutes are permuted (the reference element stays first), as the property states',
-                       'phase-permuted runs are compared on the steps on which +-2 ulp twins of the reference run agree to 1e-10 '
-                       '(measured per case, only when a deviation is seen); steps behind that horizon are counted as not compared',
+                       'phase-permuted runs are compared on the steps on which four twins of the reference run (initial composition / time scale '
+                       'moved by +-2 ulp) agree to 1e-10 (measured per case, only when a deviation is seen); steps behind that horizon are '
+                       'counted as not compared',
                        'a run pair that separates at a step where the temperature rule was decided differently on its knife edge (temperature '
                        'change equal to maxNonIsothermalDT to 1e-9 relative in both runs, ">" true in one only) is not compared beyond that step',
                        'pycalphad accepts an equilibrium when site fractions moved < 5e-9 in the last Newton step; two objects that differ '
-                       'in the insertion order of the composition conditions were observed to agree to 2e-10 (tolerance 1e-8)']
+                       'in the insertion order of the composition conditions were observed to agree to 2e-10 (tolerance 1e-8); a driving force is '
+                       'compared relative to max(|DF|, R T) because it passes through zero at the solvus (observed absolute differences <= 3e-6 J/mol)']
     ec, dc, pc = element_cases(quick), diffusion_cases(quick), phase_cases(quick)
     ctx.bounds = {'element_points': len(ec), 'element_systems': {k: {'axes': v['axes'], 'T': v['T'], 'phases': v['phases']} for k, v in ELEMENT_SYSTEMS.items()},
                   'diffusion_cases': len(dc), 'diffusion_steps': DIFF_STEPS, 'nodes': 5,
